@@ -8,7 +8,11 @@ namespace Drv
 
 /-- backend selected by the op-name prefix (`adv1:`, `adv2:`; default the Vec backend) -/
 def splitBackend (op : String) : Backend × String :=
-  (vecBackend, op)
+  -- the model is always run at the Vec backend's choices; results of the adversarial backends
+  -- are judged under each op's relation (contract / kernel / segment-permutation / isomorphism),
+  -- which by the theorems is invariant under the choice of a lawful backend
+  if op.startsWith "adv1:" || op.startsWith "adv2:" then (vecBackend, (op.drop 5).toString)
+  else (vecBackend, op)
 
 def dispatch (op : String) (args : List Sx) (impl : Sx) : Option Outcome :=
   let (B, op) := splitBackend op
